@@ -261,6 +261,7 @@ _k("p10_check_spec", WT, "Pk", ["C08", "C15", "C14"], "quick", "all (seq < 2^63,
 _k("w1_busy_wait", WT, "S", ["C08"], "quick", "condition becomes true after 1..2 looks; by publication or by the last sender leaving", unwind_props=["C08"])
 _k("w2_yielding_wait", WT, "S", ["C08"], "quick", "spin counts (0..1, 0..2); condition true after 1..2 pauses", unwind_props=["C08"])
 _k("w3_blocking_wait", WT, "S", ["C08"], "quick", "spin counts (0..1, 0..1); condition true after 1..2 pauses", unwind_props=["C08"])
+_k("w3_blocking_wait_flip_at_lock", WT, "S", ["C08"], "quick", "spin counts (0..1, 0..1); the value (or the end) arrives exactly when the waiter takes its lock", unwind_props=["C08"])
 _k("w3_blocking_notify", WT, "S", ["C08"], "quick", "monitor discipline of notify")
 
 # B: bounded stand-ins, run NATIVELY (real crate, hooks on): concrete public-API histories, both ledgers.
